@@ -232,9 +232,9 @@ func runCases(c *vp.Child, fx *fixture, w *winWriter) {
 	if c.Batch == 0 {
 		c.Feature("functions-enumerated", int64(len(paths)))
 	}
-	nTuples := c.Pick(6, 40)
+	nTuples := c.Pick(4, 24)
 	nSets := c.Pick(2, 4)
-	seq := 0
+	seq, samples := 0, 0
 	for fi := range paths {
 		if !c.Mine(fi) {
 			continue
@@ -292,7 +292,8 @@ func runCases(c *vp.Child, fx *fixture, w *winWriter) {
 						c.NonTrivial(vp.Hash("iosafe", name, setName(s), spelling, strings.Join(exprs, ",")))
 					}
 					judgeWindowChild(c, fx, name, diff, ch, input)
-					if c.WantSample() && hostile && !res.refused && ti > 1 {
+					if c.WantSample() && hostile && !res.refused && ti > 1 && samples < 2 && strings.HasPrefix(name, "io") {
+						samples++
 						c.Sample(map[string]interface{}{"window": id, "function": name, "required": setName(s), "spelling": spelling,
 							"arguments": strings.Join(exprs, ", "), "result": res.post + " " + res.out.Kind + " " + res.out.ErrMsg,
 							"checked": "strace log between /VERIF-BEGIN-" + id + " and /VERIF-END-" + id + ", sentinel tree, child processes"})
